@@ -14,7 +14,7 @@ EXPLANATION = ("C02: exhaustive check of the aio provider protocol (result of nn
                " Also: the expiry scan accounts for every entry it walks past (E1), and whoever takes the head off a head-gated request queue starts the next transfer (S3).")
 EXPLANATION += ' Round 3: the absolute-expiry flag is updated together with the timeout / deadline it qualifies (T1).'
 EXPLANATION += " Round 5: the byte-stream connections and the platform's queues park nothing after their close has drained them (P1 = C10.R11 for src/platform and src/supplemental)."
-EXPLANATION += " Round 8: a caller's aio is cleared (nni_aio_reset) on every way from a public entry point to the nni_aio_start of a provider (A15); the one-shot absolute expiry is forgotten wherever the framework ends an operation (T3); a cancel function of a head-served queue aborts the lower operation only for the operation being served or when nobody waits (A16)."
+EXPLANATION += " Round 8: a caller's aio is cleared (nni_aio_reset) on every way from a public entry point to the nni_aio_start of a provider (A15); the one-shot absolute expiry is forgotten wherever the framework ends an operation (T3); a cancel function of a head-served queue aborts the lower operation only for the operation being served or when nobody waits (A16); a_result is stored only where an operation ends or begins (T4)."
 EXPLANATION += " Round 6: a one-place park field is not overwritten while occupied (A12); an operation unlinked from its wait list is completed, queued again or handed on (A13); the mark a cancel function tests stays on the operation until it completes without a blocking step in between (A14); a busy latch is released by the completion it waits for (S4); 'served in the same critical section' requires the drain under a closed mark (P1)."
 ASSUMPTIONS = ["interleaving-level behaviour of the expire thread and of user code is not decided"]
 
@@ -1939,6 +1939,48 @@ def rule_a16(ctx):
         raise AnalysisBroken("only %d cancel functions of head-served queues abort a lower operation" % n)
 
 
+# ---------------------------------------------------------------------------
+# T4: the result of an operation is written only where the operation ends or begins
+
+
+def rule_t4(ctx):
+    r = ctx.rule("C02.T4", "T10", "a cancel code is reported only if the operation had not completed: a_result is the one final result "
+                 "of an operation, so a store into it is either the clearing store of a new operation (the constant NNG_OK), or "
+                 "lies in a function that goes on to end the operation -- the aio's task is dispatched / executed from there, or the "
+                 "aio is put on a completion list.  A function that a consumer may call at any time (abort, close, stop) and that "
+                 "stores a code without ending anything rewrites the result of an operation that has already completed", floor=5)
+    r.own_opinion = True
+    prog = ctx.prog
+    n = 0
+    for f in prog.fns_in("core/aio.c"):
+        if f.cfg_failed or f.normalized:
+            continue
+        for t in f.assigns():
+            l = f.expand(t.node["lhs"])
+            if not (l.get("k") == "mem" and l["f"] == "a_result" and t.node.get("op") == "="):
+                continue
+            n += 1
+            what = "%s line %s: %s = %s" % (f.name, t.line, show(l), show(f.expand(t.node["rhs"])))
+            if const_of(f.expand(t.node["rhs"])) == 0:
+                r.ob(f, what + " (cleared for a new operation)")
+                continue
+            after = f.reach((t.b, t.i + 1))
+            ends = [c for c in f.calls(("nni_task_dispatch", "nni_task_exec")) if (c.b, c.i) in after]
+            base = l["b"]
+            links = [w for w in f.assigns() if (w.b, w.i) in after and (f.expand(w.node["rhs"]) or {}).get("k") == "var" and
+                     base.get("k") == "var" and f.expand(w.node["rhs"])["n"] == base["n"] and
+                     f.expand(w.node["lhs"]).get("k") in ("un", "mem")]
+            if ends or links:
+                r.ob(f, what + " (the operation is ended from here)")
+            else:
+                ctx.fail(r, f, "result stored without ending an operation", t.line,
+                         "%s stores %s into a_result (line %s) and neither dispatches the aio's task nor queues the aio for "
+                         "completion: called when the operation has already completed (a late nng_aio_cancel), it rewrites the "
+                         "result the operation completed with" % (f.name, show(f.expand(t.node["rhs"])), t.line))
+    if n < 5:
+        raise AnalysisBroken("only %d stores into a_result found in core/aio.c" % n)
+
+
 def run(ctx):   # noqa: F811
     ctx.guard(rule_a1)
     ctx.guard(rule_a2)
@@ -1964,3 +2006,4 @@ def run(ctx):   # noqa: F811
     ctx.guard(rule_a15)
     ctx.guard(rule_t3)
     ctx.guard(rule_a16)
+    ctx.guard(rule_t4)
